@@ -697,6 +697,7 @@ func queryBook(c *Ctx, size int, lines [][]tak.Move) {
 					continue
 				}
 				seen[tok] = true
+				c.Count("bookwrap=" + clip(c.Emit("bookwrap "+tok), 12))
 				o := c.Emit("bookget " + tok)
 				f := strings.Fields(o)
 				if len(f) == 4 {
@@ -708,6 +709,7 @@ func queryBook(c *Ctx, size int, lines [][]tak.Move) {
 		}
 		// the end of the line and a deviation are normally not in the book
 		if p := replay(size, l); p != nil {
+			c.Emit("bookwrap " + encPos(p))
 			c.Emit("bookget " + encPos(p))
 			if ls := legalMoves(p); len(ls) > 0 {
 				if n, err := p.Move(ls[c.R.Intn(len(ls))]); err == nil {
